@@ -401,6 +401,49 @@ class Verdict:
 def run_driver(script: str, jobs: list, *, timeout: int = 600,
                hashseed: int | str = 0, procs: int | None = None,
                env: dict | None = None) -> list:
+    """_run_driver plus one more chance for cases that ran out of time: a case (an element of
+    job['cases'] whose observation in result['obs'] says 'timeout') is run again alone, with
+    ten times the per-case limit, before its time-out is believed.  More than 40 such cases
+    are a changed code base, not bad luck: then only the first 40 are tried again."""
+    res = _run_driver(script, jobs, timeout=timeout, hashseed=hashseed, procs=procs, env=env)
+    if (env or {}).get('WN_VERIF_TIMEOUT_SCALE'):
+        return res
+    again = []      # (job index, position in obs, case)
+    for ji, (j, r) in enumerate(zip(jobs, res)):
+        cases = j.get('cases') if isinstance(j, dict) else None
+        if not isinstance(cases, list):
+            continue
+        if r is None or r.get('timeout') or r.get('skipped') or 'obs' not in r:
+            # the whole job was lost: every case of it gets its own job
+            res[ji] = {'obs': [{'id': c.get('id'), 'timeout': True} for c in cases]}
+            r = res[ji]
+        byid = {c.get('id'): c for c in cases if isinstance(c, dict)}
+        for k, o in enumerate(r['obs']):
+            if isinstance(o, dict) and o.get('timeout') and o.get('id') in byid:
+                again.append((ji, k, byid[o['id']]))
+    if not again:
+        return res
+    again = again[:40]
+    e2 = dict(env or {})
+    e2['WN_VERIF_TIMEOUT_SCALE'] = '10'
+    jobs2 = [dict(jobs[ji], cases=[c]) for ji, k, c in again]
+    res2 = _run_driver(script, jobs2, timeout=timeout, hashseed=hashseed, procs=procs, env=e2)
+    # (a case may yield several observations: the timed-out entry is replaced by all of them)
+    repl = {}
+    for (ji, k, c), r2 in zip(again, res2):
+        if r2 and isinstance(r2.get('obs'), list) and r2['obs']:
+            repl[(ji, k)] = r2['obs']
+    for ji in {ji for ji, _ in repl}:
+        new_obs = []
+        for k, o in enumerate(res[ji]['obs']):
+            new_obs.extend(repl.get((ji, k), [o]))
+        res[ji]['obs'] = new_obs
+    return res
+
+
+def _run_driver(script: str, jobs: list, *, timeout: int = 600,
+                hashseed: int | str = 0, procs: int | None = None,
+                env: dict | None = None) -> list:
     """Run harness/<script> in worker processes (python of /venv, wn imported
     from /repo's working tree).  *jobs* is a list of JSON-able job dicts; each
     worker gets a slice, writes one JSON result line per job.  A job that does
